@@ -70,7 +70,14 @@ type Case struct {
 	// underneath as named here - and a third time with the original files restored; every one
 	// of the three calls has to return.
 	Redo string `json:"redo,omitempty"`
+	// Engine: "" = engine over the case's files; "nofs" = vuego.New() (no filesystem at all);
+	// "nilfs" = vuego.NewFS(nil) / NewVue(nil). Calls in an unusual order (Render without Load,
+	// Load of a missing file, ...) are entries of their own: see misuseEntries.
+	Engine string `json:"engine,omitempty"`
 }
+
+// misuseEntries: the Template API called in an order nobody intends; each call has to return.
+var misuseEntries = []string{"noload", "noload-base", "noload-assign", "load-missing", "load-empty-name", "load-dir", "file-missing", "load-twice", "noload-file-after"}
 
 // redos: what happens to the files between the first and the second render on one engine.
 var redos = []string{"same", "delete-page", "delete-others", "delete-all", "garbage-page", "open-fails", "touch", "empty-page"}
@@ -347,12 +354,30 @@ func checkNow(c Case) (err error) {
 	var root vuego.Template
 	var vue *vuego.Vue
 	switch c.Entry {
-	case "load", "file", "string":
-		root = vuego.NewFS(fsys, opts...)
 	case "vue", "frag":
 		vue = vuego.NewVue(fsys).Funcs(cat.Funcs())
+		if c.Engine != "" {
+			vue = vuego.NewVue(nil).Funcs(cat.Funcs())
+		}
 	default:
-		return fmt.Errorf("unknown entry %q", c.Entry)
+		known := c.Entry == "load" || c.Entry == "file" || c.Entry == "string"
+		for _, e := range misuseEntries {
+			known = known || e == c.Entry
+		}
+		if !known {
+			return fmt.Errorf("unknown entry %q", c.Entry)
+		}
+		// (engines without a filesystem are built without WithComponents: that option walks the
+		// filesystem when the ENGINE is constructed and panics on a nil one - a constructor,
+		// not a render entry point, so outside this property)
+		switch c.Engine {
+		case "nofs":
+			root = vuego.New(vuego.WithFuncs(cat.Funcs()))
+		case "nilfs":
+			root = vuego.NewFS(nil, vuego.WithFuncs(cat.Funcs()), vuego.WithLessProcessor())
+		default:
+			root = vuego.NewFS(fsys, opts...)
+		}
 	}
 	renderOnce := func() {
 		switch c.Entry {
@@ -366,6 +391,27 @@ func checkNow(c Case) (err error) {
 			_ = vue.Render(w, "page.vuego", data)
 		case "frag":
 			_ = vue.RenderFragment(w, "page.vuego", data)
+		case "noload":
+			_ = root.New().Fill(data).Render(ctx, w)
+		case "noload-base":
+			_ = root.Fill(data).Render(ctx, w)
+		case "noload-assign":
+			_ = root.New().Assign("k", "v").Render(ctx, w)
+		case "load-missing":
+			_ = root.Load("nope/missing.vuego").Fill(data).Render(ctx, w)
+		case "load-empty-name":
+			_ = root.Load("").Fill(data).Render(ctx, w)
+		case "load-dir":
+			_ = root.Load("layouts").Fill(data).Render(ctx, w)
+		case "file-missing":
+			_ = root.New().Fill(data).RenderFile(ctx, w, "nope/missing.vuego")
+		case "load-twice":
+			_ = root.Load("nope.vuego").Load("page.vuego").Fill(data).Render(ctx, w)
+		case "noload-file-after":
+			t := root.New().Fill(data)
+			_ = t.Render(ctx, w)
+			_ = t.RenderFile(ctx, w, "page.vuego")
+			_ = t.Render(ctx, w)
 		}
 	}
 	renderOnce()
@@ -841,6 +887,25 @@ func TestProp(t *testing.T) {
 				}
 				c := Case{Files: p.Files, Entry: e, Redo: rd, Data: map[string]vals.V{"who": vals.Str("w"), "items": vals.List("[]any", vals.Int(1), vals.Str("two")), "yes": vals.Bool(true)}}
 				each("redo", c, "family=redo")
+			}
+		}
+	}
+
+	// family 5: the API called in an unusual order, on engines with files, without a filesystem
+	// and over a nil filesystem
+	misuseFiles := []map[string]string{
+		{"page.vuego": `<p>{{ who }}</p>`},
+		{"page.vuego": "---\nlayout: base\n---\n<p>{{ who }}</p>", "layouts/base.vuego": `<html><body><div v-html="content"></div></body></html>`},
+		{"layouts/base.vuego": `<html><body><div v-html="content"></div></body></html>`},
+		{},
+	}
+	for _, files := range misuseFiles {
+		for _, eng := range []string{"", "nofs", "nilfs"} {
+			for _, e := range append(append([]string(nil), misuseEntries...), entries...) {
+				c := Case{Files: files, Entry: e, Engine: eng, Data: map[string]vals.V{"who": vals.Str("w"), "layout": vals.Str("base")}}
+				each("misuse", c, "family=api-misuse", "engine="+map[string]string{"": "files", "nofs": "none", "nilfs": "nil"}[eng])
+				c.Data = nil
+				each("misuse", c, "family=api-misuse", "no-data")
 			}
 		}
 	}
